@@ -273,4 +273,50 @@ theorem formParse_formSerialize (pairs : List (List Nat × List Nat))
 example : formPairs (formSerialize [([97, 38], [49, 32, 43, 61]), ([], []), ([195, 169], [37, 50, 53])])
     = [([97, 38], [49, 32, 43, 61]), ([], []), ([195, 169], [37, 50, 53])] := by decide
 
+
+/-- **C15 (11) totality — a value or a documented error, nothing else**: `PathParams::extract` is a
+    total function whose failures are exactly: a parameter that is not UTF-8 after decoding; a value
+    that does not parse as the field's type (with key, value and type); an unsupported field type; a
+    missing field; a repeated parameter; a `&str` field whose value needed decoding. -/
+theorem path_error_kinds (fields : List Field) (params : List (List Nat × List Nat)) (e : Err)
+    (h : pathExtract fields params = .error e) :
+    (∃ k, e = .invalidUtf8 k) ∨ (∃ k v st, e = .parseAt k v st) ∨ e = .unsupported ∨
+      (∃ n, e = .missingField n) ∨ (∃ n, e = .duplicateField n) ∨ (∃ k, e = .borrowedStr k) := by
+  unfold pathExtract at h
+  cases hd : decodeParams params with
+  | error e' =>
+    simp only [hd, Except.error.injEq] at h
+    subst h
+    obtain ⟨p, _, _, he⟩ := decodeParams_error hd
+    exact Or.inl ⟨p.1, he⟩
+  | ok dps =>
+    simp only [hd, visitStruct] at h
+    cases hv : visitMap pathDe fields dps [] with
+    | error e' =>
+      simp only [hv, Except.error.injEq] at h
+      subst h
+      rcases visitMap_error hv with ⟨k, hk⟩ | ⟨k, t, b, hde⟩
+      · exact Or.inr (Or.inr (Or.inr (Or.inr (Or.inl ⟨k, hk⟩))))
+      · rcases pathField_error hde with h1 | ⟨st, h2⟩ | h3
+        · exact Or.inr (Or.inr (Or.inr (Or.inr (Or.inr ⟨k, h1⟩))))
+        · exact Or.inr (Or.inl ⟨k, b.1, st, h2⟩)
+        · exact Or.inr (Or.inr (Or.inl h3))
+    | ok acc =>
+      simp only [hv] at h
+      obtain ⟨n, hn⟩ := finishFields_error h
+      exact Or.inr (Or.inr (Or.inr (Or.inl ⟨n, hn⟩)))
+
+/-- **C15 (12) the router hands each segment to the parameter of its position**: for the route
+    `/{n₁}/…/{nₖ}` and a path made of `k` non-empty, slash-free raw segments, matchit yields exactly
+    the pairs `(nᵢ, segmentᵢ)` — raw, not decoded (decoding happens once, later, in `extract`). -/
+theorem route_params (names segs : List (List Nat)) (hl : names.length = segs.length)
+    (hne : segs ≠ []) (hs : ∀ s ∈ segs, s ≠ [] ∧ 47 ∉ s) :
+    matchRoute (names.map Seg.param) (47 :: joinSlash segs) = some (names.zip segs) := by
+  simp only [matchRoute]
+  rw [splitOn_joinSlash segs hne (fun s h => (hs s h).2)]
+  exact matchSegs_params names segs hl (fun s h => (hs s h).1)
+
+example : matchRoute [.param [105, 100], .param [110]] [47, 55, 47, 37, 50, 53, 52, 49] =
+    some [([105, 100], [55]), ([110], [37, 50, 53, 52, 49])] := by decide
+
 end Pxv.ReqData
